@@ -8,6 +8,7 @@ C14 — cyclic models are rejected, never silently skipped.
   command is executed once and evaluation needs no more fuel than there are commands.  So a cyclic model can never be accepted.
 -/
 import MPilot.Props.C01
+import Mathlib.Data.List.Perm.Subperm
 
 namespace MPilot.C14
 open MPilot
@@ -201,5 +202,109 @@ theorem no_cycle_ranked (p : Program) (deps : String → List String) (h : hasCy
   have hlen : D.length = pre.length + 1 + post.length := by rw [hsplit]; simp; omega
   unfold rankOf
   omega
+
+/-! ### the check is complete: an acyclic model is never rejected -/
+
+section
+variable (p : Program) (deps : String → List String) (r : String → Nat)
+
+/-- the names on a search path are distinct commands, so there are at most as many as commands -/
+theorem path_short (l : List String) (hnd : l.Nodup) (hk : ∀ x ∈ l, (p.find? x).isSome = true) : l.length ≤ p.cmds.length := by
+  have hsub : l ⊆ p.cmds.map (·.resultName) := by
+    intro x hx
+    have := hk x hx
+    rw [Program.find?, List.find?_isSome] at this
+    obtain ⟨c, hc, he⟩ := this
+    exact List.mem_map.mpr ⟨c, hc, by simpa using he⟩
+  have := (List.Nodup.subperm hnd hsub).length_le
+  simpa using this
+
+/-- a visit under an acyclic (ranked) reference relation never reports a cycle -/
+theorem visit_complete (hr : ∀ x d, (p.find? x).isSome = true → d ∈ deps x → (p.find? d).isSome = true → r d < r x) :
+    ∀ (fuel : Nat) (path done : List String) (n : String),
+      (p.find? n).isSome = true → (n :: path).Nodup → (∀ q ∈ path, (p.find? q).isSome = true ∧ r n < r q) →
+      fuel + path.length = p.cmds.length + 1 →
+      ∃ d', visit deps (fun n => (p.find? n).isSome) fuel path done n = some d' := by
+  intro fuel
+  induction fuel with
+  | zero =>
+    intro path done n hk hnd hp hf
+    have := path_short p (n :: path) hnd (by
+      intro x hx
+      rcases List.mem_cons.mp hx with rfl | hx
+      · exact hk
+      · exact (hp x hx).1)
+    simp at this hf
+    omega
+  | succ fuel ih =>
+    intro path done n hk hnd hp hf
+    unfold visit
+    by_cases hd : done.contains n = true
+    · exact ⟨done, by rw [if_pos hd]⟩
+    · rw [if_neg hd]
+      -- the inner loop over the references of `n`
+      have hgo : ∀ (rs : List String) (d : List String), (∀ x ∈ rs, x ∈ deps n) →
+          ∃ d', visit.go deps (fun n => (p.find? n).isSome) fuel path n rs d = some d' := by
+        intro rs
+        induction rs with
+        | nil => intro d _; exact ⟨d, by unfold visit.go; rfl⟩
+        | cons x rs ihr =>
+          intro d hsub
+          have hx : x ∈ deps n := hsub x (List.mem_cons_self ..)
+          have hrest : ∀ y ∈ rs, y ∈ deps n := fun y hy => hsub y (List.mem_cons_of_mem _ hy)
+          unfold visit.go
+          have hnot : (n :: path).contains x = false := by
+            by_contra hc
+            simp only [Bool.not_eq_false] at hc
+            have hmem : x ∈ n :: path := by simpa using hc
+            rcases List.mem_cons.mp hmem with rfl | hq
+            · exact absurd (hr _ _ hk hx hk) (Nat.lt_irrefl _)
+            · have := hp x hq
+              have h1 := hr n x hk hx this.1
+              omega
+          simp only [hnot, Bool.false_eq_true, if_false]
+          by_cases hskip : (d.contains x || !(fun n => (p.find? n).isSome) x) = true
+          · simp only [hskip, if_true]; exact ihr d hrest
+          · simp only [hskip, Bool.false_eq_true, if_false]
+            have hkx : (p.find? x).isSome = true := by
+              cases hfx : (p.find? x).isSome with
+              | true => rfl
+              | false => exact absurd (by simp [hfx]) hskip
+            have hxn : x ∉ n :: path := by
+              intro hm; have : (n :: path).contains x = true := by simpa using hm
+              rw [hnot] at this; cases this
+            obtain ⟨d1, hd1⟩ := ih (n :: path) d x hkx (List.nodup_cons.mpr ⟨hxn, hnd⟩) (by
+              intro q hq
+              rcases List.mem_cons.mp hq with rfl | hq
+              · exact ⟨hk, hr _ _ hk hx hkx⟩
+              · have := hp q hq
+                exact ⟨this.1, Nat.lt_trans (hr _ _ hk hx hkx) this.2⟩) (by simp; omega)
+            rw [hd1]
+            exact ihr d1 hrest
+      obtain ⟨d', hd'⟩ := hgo (deps n) done (fun x hx => hx)
+      exact ⟨n :: d', by rw [hd']⟩
+
+/-- **completeness of the check.**  If the references between commands are acyclic (a rank function exists), the check reports
+no cycle: an acyclic model - diamonds, forward references, repeated references included - is never rejected as recursive. -/
+theorem acyclic_accepted (hr : ∀ x d, (p.find? x).isSome = true → d ∈ deps x → (p.find? d).isSome = true → r d < r x) :
+    hasCycle p deps = false := by
+  unfold hasCycle
+  have : ∀ (cs : List PCmd) (done : List String), (∀ c ∈ cs, c ∈ p.cmds) →
+      hasCycle.go p deps (fun n => (p.find? n).isSome) cs done = false := by
+    intro cs
+    induction cs with
+    | nil => intro done _; unfold hasCycle.go; rfl
+    | cons c rest ih =>
+      intro done hsub
+      have hc : c ∈ p.cmds := hsub c (List.mem_cons_self ..)
+      have hk : (p.find? c.resultName).isSome = true := by
+        rw [Program.find?, List.find?_isSome]; exact ⟨c, hc, by simp⟩
+      obtain ⟨d, hd⟩ := visit_complete p deps r hr (p.cmds.length + 1) [] done c.resultName hk (by simp) (by simp) (by simp)
+      unfold hasCycle.go
+      rw [hd]
+      exact ih d (fun x hx => hsub x (List.mem_cons_of_mem _ hx))
+  exact this p.cmds [] (fun c hc => hc)
+
+end
 
 end MPilot.C14
